@@ -198,6 +198,15 @@ def decorated_tokens(rng, quick):
                 for tail in ([B, A], [B], [A]):
                     out.append((G.case_text([], G.seqof(a, l), [A] + g + tail, offset=rng.choice([1, 2, 7]), flags=0),
                                 {"stream": "decorated-token", "nontrivial": len(g) > 0, "k3": False, "outcome": "n/a"}))
+            # a right trim around something that matched NOTHING (Many, Optional, SepBy): the empty result is moved over
+            # the whitespace like any other
+            many = ('seq', ('SMany', True), 'INone', False, None, [a])
+            sepby = ('seq', ('SSepBy', True), 'INone', False, None, [a, ('rune', 44)])
+            for empty in (many, ('opt', a), sepby, G.seqof(('opt', a), ('opt', ('rune', 44)))):
+                for lead in ([], [B]):
+                    root = G.seqof(*([('rune', B)] if lead else []), ('rtrim', m, empty), b)
+                    out.append((G.case_text([], root, lead + g + [B], offset=rng.choice([1, 2, 7]), flags=0),
+                                {"stream": "decorated-token", "nontrivial": len(g) > 0, "k3": False, "outcome": "n/a"}))
             for r in rights:
                 for tail in ([B], [A, B]):
                     out.append((G.case_text([], G.seqof(r, b), [A] + g + tail, offset=rng.choice([1, 2, 7]), flags=0),
